@@ -381,6 +381,10 @@ def run(tier='quick'):
                   floor=150)
     domains.apply_rule(prog, eff, chk, W7)
     domains.apply_bind_rule(prog, cg, eff, chk, W7)
+    W11 = chk.rule('W11', 'every stored performance blob decodes: each write path of the 1.x blobs applies the '
+                          'decode-after-encode guard', floor=2)
+    from . import c03 as _c03
+    _c03._sibling_guard(prog, chk, W11)
     W10 = chk.rule('W10', 'verify() after reopening judges the file by the validator of the version stamped in it: each '
                           'creator stamps the triple of its own class', floor=50)
     from . import c13 as _c13
